@@ -22,7 +22,7 @@ def run(eng, rep, tier):
     prog, interp = eng.prog, eng.interp
     rep.explanation = EXPLANATION
     ob = Oblig(eng, rep, "C02")
-    walk = prog.functions.get(DFA + "._is_equivalent_to_minimal")
+    walk = prog.private(DFA + "._is_equivalent_to_minimal")
     if walk is None:
         rep.error("R3d", "C02.1", DFA, "anchor", "the isomorphism walk _is_equivalent_to_minimal vanished")
         return
